@@ -37,12 +37,22 @@ def setup(exe, seed, style, latency=5, echo=False):
     return w, sim
 
 
-def run_exchanges(sim, reqs, fail_tokens):
+def run_exchanges(sim, reqs, fail_tokens, reqs1=()):
     """submit the requests one at a time: the next one when the previous has
-    concluded (response or NACK seen) - the property's precondition"""
-    state = {"i": 0, "concluded": set(), "refused": set()}
+    concluded (response or NACK seen) - the property's precondition.  reqs1: the same on a
+    second session of the client context (one exchange outstanding per session; the two
+    sessions share the context's send queue)"""
     for t in fail_tokens:
         sim.cmd("verdict 0 %s" % t.hex())
+    refused = _drive(sim, 0, reqs, final=not reqs1)
+    if reqs1:
+        refused |= _drive(sim, 1, list(reqs1), final=True)
+    return refused
+
+
+def _drive(sim, sid, reqs, final=True):
+    state = {"i": 0, "concluded": set(), "refused": set()}
+    mine = set(t.hex() for _, _, t in reqs)
 
     def submit(sm):
         i = state["i"]
@@ -50,9 +60,10 @@ def run_exchanges(sim, reqs, fail_tokens):
             return
         typ, code, tok = reqs[i]
         state["i"] += 1
+        state["t_submit"] = sm.now
         opts = "11=72" + (",12=" if code in (2, 3, 5) else "")
-        evs = sm.cmd("send 0 0 type=%d code=%d token=%s opts=%s%s" %
-                     (typ, code, tok.hex(), opts, " payload=7878" if code in (2, 3, 5) else ""))
+        evs = sm.cmd("send 0 %d type=%d code=%d token=%s opts=%s%s" %
+                     (sid, typ, code, tok.hex(), opts, " payload=7878" if code in (2, 3, 5) else ""))
         if any(e["e"] == "sent" and e.get("mid", 0) < 0 for e in evs):
             # coap_send() refused it (the socket write failed): not a request the application
             # sent; go on with the next one
@@ -62,7 +73,7 @@ def run_exchanges(sim, reqs, fail_tokens):
     def monitor(sm, ev):
         if ev["e"] in ("rsp", "nack") and ev.get("n") == 0:
             tok = ev.get("tok", "")
-            if tok and tok not in state["concluded"]:
+            if tok and tok in mine and tok not in state["concluded"]:
                 state["concluded"].add(tok)
                 if state["i"] < len(reqs):
                     sm.call_at(sm.now + 1, submit)
@@ -71,12 +82,15 @@ def run_exchanges(sim, reqs, fail_tokens):
     submit(sim)
     # NON requests have no conclusion event when everything is lost: move on after a while
     def nudge(sm):
-        if state["i"] < len(reqs) and not sm.q:
+        # (idle for this driver: nothing of its own pending for two minutes; with a second
+        # driver on the other session the event queue itself is never empty)
+        if state["i"] < len(reqs) and (not sm.q or sm.now - state.get("t_submit", 0) >= 119000):
             submit(sm)
         if state["i"] < len(reqs):
             sm.call_at(sm.now + 120000, nudge)
     sim.call_at(sim.now + 120000, nudge)
-    sim.run(horizon=900000)
+    if final:
+        sim.run(horizon=900000)
     return state["refused"]
 
 
@@ -344,6 +358,14 @@ def work(job):
                     return [(fr.randint(1, dmax), b)]
                 sim.fault = fault
                 lossless = False
+                # a third of the plans: a second session of the same client context runs
+                # exchanges of its own at the same time (one outstanding per session; the two
+                # share the context's send queue, where entries are timed relative to each other)
+                reqs1 = []
+                if r.random() < 0.33:
+                    sim.cmd("sess 0 1 udp 10.0.0.2:5683")
+                    reqs1 = [(0, r.choice(METHODS), bytes([0xe0 + k, r.getrandbits(8)]))
+                             for k in range(r.choice([1, 2, 3]))]
                 failsend = r.choice([1, 2, 2, 3, 3, 4, 5, 6, 8]) if r.random() < 0.25 else 0
                 if failsend:
                     # the k-th datagram write of the process (either node) fails with ENOBUFS
@@ -351,9 +373,13 @@ def work(job):
                 sig = ("rand", style, nreq, tuple(t for t, _, _ in reqs), bool(fails),
                        ploss, dmax, failsend)
             witness["style"] = style
-            refused = run_exchanges(sim, reqs, fails)
+            if kind == "enum":
+                reqs1 = []
+            refused = run_exchanges(sim, reqs, fails, reqs1)
             witness["script"] = w.script[-300:]
-            judge(run, sim, reqs, fails, witness, stats, lossless, refused)
+            if reqs1:
+                stats["plans_with_two_sessions"] = stats.get("plans_with_two_sessions", 0) + 1
+            judge(run, sim, reqs + reqs1, fails, witness, stats, lossless, refused)
             world.teardown_check(run, "C07", w, witness)
             sigs.add(sig)
             n += 1
